@@ -249,7 +249,14 @@ def corpus(rng, b=0):
         for _ in range(2):
             pick = rng.sample(both, min(len(both), rng.randint(1, 4)))
             dec.append("[C]" + "".join(pick) + rng.choice(("[C]", "[=O]", "[Ring1][C]", "")))
-    info = {"features": feats, "smiles_theme": theme, "flood": flood, "p_dec": p_dec, "deep": deep, "medium": medium}
+    pairs = []
+    for x in smi:
+        if len(x) < 200:
+            syms = [y for y in (_as_selfies_symbol(m) for m in re.findall(r"\[[^\]]+\]", x)) if y]
+            if syms:
+                pairs.append((x, "[C]" + "".join(syms[:3]) + "[C]"))
+    info = {"features": feats, "smiles_theme": theme, "flood": flood, "p_dec": p_dec, "deep": deep, "medium": medium,
+            "pairs": pairs[:6]}
     return dec, smi, info
 
 
@@ -330,6 +337,11 @@ def gen_spec(base_seed, i, W):
                     call = first if rng.random() < 0.5 else (first[0], first[1], first[2], rng.random() < 0.5)
             calls.append(call)
         threads.append(calls)
+    if info.get("pairs") and i % 16 in (4, 7, 12) and not (info["deep"] or info["medium"]):
+        # one encoder and one decoder call that meet on the same, so far unseen, atom symbols
+        x, y = info["pairs"][rng.randrange(len(info["pairs"]))]
+        threads[0][0] = ("encode", x, rng.random() < 0.3, False)
+        threads[1][0] = ("decode", y, False, rng.random() < 0.2)
     # runs with deep-nesting inputs are pre-empted at source lines (native LINE events): a change
     # that lets such inputs succeed makes them quadratic, which bytecode events cannot afford
     gran = "native-line" if any(c[1].count("(") > 250 or c[1].count("[Branch1][P]") > 250
@@ -351,6 +363,7 @@ def gen_spec(base_seed, i, W):
         policy["q"] = rng.choice((0.15, 0.4, 0.8))
         policy["p"] = rng.choice((0.0, 1 / 2000))
         policy["hold"] = rng.random() < 0.5       # check-then-act forcing on rebound globals
+        policy["hold_delay"] = (10, 40, 200, 1000)[i % 4]
     elif kind == "stall":
         policy["c"] = rng.choice((1 / 100, 1 / 300, 1 / 1000))   # about 2 / 0.7 / 0.2 expected stall opportunities per run
         policy["stalls"] = rng.choice((1, 1, 2, 3))
@@ -365,6 +378,9 @@ def gen_spec(base_seed, i, W):
         budget_sw = 20000.0 if info["flood"] else 4000.0     # flood runs: the eviction race needs dense switching
         cap = (budget_sw if kind == "random" else budget_sw / 16) / max(total, 1)
         policy["p"] = min(policy["p"], cap)
+    if kind in ("random", "window"):
+        policy["hold"] = rng.random() < 0.5
+        policy["hold_delay"] = (10, 40, 200, 1000)[i % 4]
     if kind in ("random", "window", "shared"):
         policy["exc_q"] = rng.choice((0.0, 0.1, 0.3, 0.3)) if theme == "failing" else rng.choice((0.0, 0.0, 0.1, 0.3))
         policy["exc_release"] = rng.choice((1 / 50, 1 / 300, 1 / 2000))
